@@ -122,7 +122,8 @@ func (commander *Commander) exec(ctx context.Context, parameters Parameters, scr
 		if err != nil {
 			return nil, nil, errors.Wrap(err, "locking accounts for tx processing")
 		}
-		unlock(ctx)
+		// released when this function returns, i.e. after the log is persisted
+		defer unlock(ctx)
 
 		err = m.ResolveBalances(ctx, commander.store)
 		if err != nil {
